@@ -71,3 +71,17 @@ func Harness_C04_invert_complements() {
 	vr.Assert("inverting twice restores containment", l.bruteForceContainsPoint(p) == before)
 	vr.Reach("end")
 }
+
+// Polygon.ReferencePoint: the origin is contained iff an odd number of loops contain it.
+func Harness_C04_polygon_reference_parity() {
+	n := vr.Choose("loops", 1, 4)
+	p := &Polygon{}
+	want := false
+	for i := 0; i < n; i++ {
+		in := vr.Bool("originInside")
+		p.loops = append(p.loops, &Loop{vertices: vrPts(3*i, 3), originInside: in})
+		want = want != in
+	}
+	vr.Assert("Polygon.ReferencePoint containment is the parity over its loops", p.ReferencePoint().Contained == want)
+	vr.Reach("end")
+}
